@@ -9,7 +9,8 @@ EXPLANATION = ("(1) the three GREASE predicates are the same table `id >= 0x21 &
                "unknown frame type and the next Frame::read the wire I/O must be exactly [varint len, len bytes] — checked on the producer "
                "(Frame::read / read_async) plus every consuming loop arm; (3) the set of ErrorCode variants that can reach the connection-"
                "fatal queue from the accept_uni task must not contain StreamCreation<-UnknownStream (table composition); (4) unknown "
-               "settings are ignored, reserved ones and duplicates rejected; unknown capsules / non-DATA frames on the session stream are skipped.")
+               "settings are ignored, reserved ones and duplicates rejected; unknown capsules / non-DATA frames on the session stream are skipped."
+               ' Also (C13-R5/R6): an unknown capsule yields None without any of its bytes being re-interpreted; the slice reader consumes a varint at its on-wire length (non-minimal encodings leave nothing behind).')
 NOT_DECIDED = ["transparency of arbitrary insertion sequences at run time (metamorphic)", "capsules spanning several DATA frames (observation O2)"]
 TRUSTED = ["rustc MIR", "spec/h3.json (RFC 9114 §7.2.8, §6.2.3, §9)"]
 
